@@ -36,6 +36,14 @@ DOC_RETTMP_ZST = """/**
  * type aliases of this trait to use that particular structure.
  */
 """
+DOC_RETTMP_SIZED = """/**
+ * Temporary return value structure, for returning wrapped references.
+ *
+ * This structure contains data for each vtable function that returns a reference to
+ * an associated type. Note that these temporary values should not be accessed
+ * directly. Use the trait functions.
+ */
+"""
 DOC_CONTAINER = """/**
  * Simple CGlue trait object container.
  *
@@ -160,6 +168,17 @@ def gen_model(rng, foreign=True):
     m.cb_payload = "u32" if rng.random() < 0.08 else "Pair"
     nt = rng.randint(1, 4)
     names = rng.sample(["Alpha", "Beta", "Gamma", "Delta", "Reader", "Writer", "Store", "Dumper"], nt)
+    # sometimes one trait's name is a proper suffix of another's (Store / KeyStore): the tool
+    # finds its items with regular expressions over names
+    if rng.random() < 0.3:
+        base = rng.choice(names)
+        longer = rng.choice(["Key", "Plugin", "Meta"]) + base
+        if len(names) == 4:
+            names[rng.randrange(4) if names.index(base) != 3 else 0] = longer
+            if base not in names:
+                names[0 if names[0] != longer else 1] = base
+        else:
+            names.append(longer)
     shared_method = rng.random() < 0.5  # deliberate method-name clash between traits
     m.user_structs = [("Pair", "    uint32_t a;\n    uint64_t b;\n")]
     for ti, tn in enumerate(names):
@@ -195,6 +214,8 @@ def gen_model(rng, foreign=True):
             name = "common" if (shared_method and j == 0 and ti < 2) else f"{tn.lower()}_m{j}"
             methods.append(Method(name, recv, args, ret))
         m.traits[tn] = Trait(tn, methods)
+        # real (non-zero-sized) temporary-return storage, as for traits returning borrowed wrapped objects
+        m.traits[tn].rettmp_sized = rng.random() < 0.25
     # objects
     for tn in names:
         for _ in range(rng.randint(1, 2)):
@@ -307,7 +328,10 @@ def render(model):
         for t in traits:
             if (t, x) not in seen_rettmp:
                 seen_rettmp.add((t, x))
-                add(DOC_RETTMP_ZST + f"typedef struct {t}RetTmp_{x} {t}RetTmp_{x};\n")
+                if getattr(model.traits[t], "rettmp_sized", False):
+                    add(DOC_RETTMP_SIZED + f"typedef struct {t}RetTmp_{x} {{\n    struct Pair mut_{t.lower()}_thing;\n}} {t}RetTmp_{x};\n")
+                else:
+                    add(DOC_RETTMP_ZST + f"typedef struct {t}RetTmp_{x} {t}RetTmp_{x};\n")
         cn = cont_struct_name(inst, model)
         on = obj_struct_name(inst, model)
         if inst.kind == "obj":
@@ -726,6 +750,8 @@ def gen_model_cpp(rng):
     """the C model space, with the foreign declarations in their C++ spelling"""
     m = gen_model(rng, foreign=False)
     m.mode = "C++"
+    for t in m.traits.values():
+        t.rettmp_sized = False   # (sized RetTmp fields in C++ containers are not modelled)
     for txt in rng.sample(FOREIGN_POOL_CPP, rng.randint(0, 5)):
         m.foreign.append((rng.random(), txt))
     m.cpp_maybe_uninit = rng.random() < 0.85
